@@ -879,6 +879,21 @@ def shard_protocol_guards(repo, col):
     cl = repo.func("sharded_file_accessor", "Shard.close", inline=True)
     ptab = single_defs(cl.node)
     cdefs = local_defs(cl.node)
+    # self.header_byte_length is that bound under a name, when the class
+    # hierarchy sets it to 2**minishard_bits * 16
+    hbl = False
+    for c_ in repo.mro(repo.cls("sharded_file_accessor", "Shard")):
+        for mf_ in c_.methods.values():
+            for x_ in ast.walk(mf_.node):
+                if isinstance(x_, ast.Assign) and any(
+                        norm(t_) == "self.header_byte_length"
+                        for t_ in x_.targets):
+                    tv_ = norm(x_.value)
+                    hbl = "minishard_bits" in tv_ and "16" in tv_
+
+    def _is_index_size(txt):
+        return ("minishard_bits" in txt and "16" in txt) or \
+            (hbl and "self.header_byte_length" in txt)
 
     def _oriented(test):
         """(length name, op, bound expr) with the 2**minishard_bits*16 bound
@@ -888,8 +903,7 @@ def shard_protocol_guards(repo, col):
         for a in _holds(test, True):
             for b in (a, a.flipped()):
                 rb = norm(expand(b.right, ptab))
-                if "minishard_bits" in rb and "16" in rb and \
-                        isinstance(b.left, ast.Name):
+                if _is_index_size(rb) and isinstance(b.left, ast.Name):
                     return b.left.id, b.op, rb
         return None
 
@@ -929,7 +943,8 @@ def shard_protocol_guards(repo, col):
                                call_name(x) == "len"
                                for x in walk_local(lb))) and \
                         b.op in ("<", "<=") and \
-                        "minishard_bits" in norm(expand(b.right, ptab)):
+                        (_is_index_size(norm(expand(b.right, ptab))) or
+                         "minishard_bits" in norm(expand(b.right, ptab))):
                     too_many = True
     from .core import helper_closure
     opaque = [h for h in helper_closure(getattr(cl, "inlined_from", cl))
